@@ -231,7 +231,11 @@ fn run_case(rep: &mut Report, r: &mut Rng, c: &Case) {
     };
     inter.sort();
     inter.dedup();
-    rep.class(format!("n={}|id={}|prior={}|inter={}|decode={}|dressed={}|{}", n, idc, pr, inter.join("+"), c.decode as u8, c.dress as u8, c.kind));
+    // (the interleaved kinds are recorded one by one: their combinations would give millions of classes)
+    rep.class(format!("n={}|id={}|prior={}|decode={}|dressed={}|{}", n, idc, pr, c.decode as u8, c.dress as u8, c.kind));
+    for k in &inter {
+        rep.class(format!("interleaved={}|prior={}|n={}", k, pr, n));
+    }
     rep.count("groups");
     rep.sample(4, || {
         let mut o = J::obj();
